@@ -1,6 +1,7 @@
 """C15 - observe accounting: sequence +1 per round, counter only for
 confirmable rounds, retain predicate count <= limit, acknowledge resets,
 panic-free counting, notification builder copies its arguments."""
+import os
 from harness import *
 from absdom import Aff, holds
 import bitprov
@@ -138,7 +139,8 @@ def check(env, rep, tier):
                 if ob.get("promoted") or not ob["path"].startswith(SUBJ + "resource_changed::{closure") or ob["arg_count"] < 2:
                     continue
                 pt = prog.types[ob["locals"][2]["ty"]]["s"]
-                if pt.startswith("&observe::Observer<") and prog.types[ob["locals"][0]["ty"]]["s"] == "bool":
+                # (&Observer -> bool for retain, &mut Observer -> bool when the update is fused into retain_mut)
+                if pt.startswith(("&observe::Observer<", "&mut observe::Observer<")) and prog.types[ob["locals"][0]["ty"]]["s"] == "bool":
                     c_ret = ob if c_ret is None else c_ret
             if c_ret is None or not isinstance(conf, IntV) or not isinstance(mid, IntV) or not isinstance(limit, IntV):
                 rep.missing("C15.1", "retain predicate closure or inputs of resource_changed")
@@ -178,7 +180,12 @@ def check(env, rep, tier):
                             if isinstance(old_v, TopV):
                                 old_v = I_.ensure(s, place, None, "count")
                             from absdom import int_range
-                            inc = isinstance(old_v, IntV) and (v.aff == old_v.aff + 1 or (v.aff.is_const() and v.ty is not None and v.aff.c == int_range(v.ty)[1]))
+                            if os.environ.get("VERIF_DEBUG_C15"):
+                                print("UNACK store mode", mode, "old", old_v, "new", v)
+                            inc = isinstance(old_v, IntV) and (v.aff == old_v.aff + 1 or s.entails_eq(v.aff, old_v.aff + 1)
+                                                               or (v.aff.is_const() and v.ty is not None and v.aff.c == int_range(v.ty)[1]))
+                            if not inc and isinstance(old_v, IntV) and (v.aff == old_v.aff or s.entails_eq(v.aff, old_v.aff)):
+                                return      # the value it already had (`count + u16::from(false)`): not a change
                             s.ghost["unack-stored"] = bool(inc)
                             n_unack[0] += 1
                     I.store_hooks.append(fld_store)
@@ -204,6 +211,7 @@ def check(env, rep, tier):
                         def ret_hook(I_, ctx, outs):
                             for s_, rv_ in outs:
                                 results["ret"].append((s_.copy(), s_.cells.get((ctx.fid, 2)), rv_))
+                                checkpoint(s_)      # (the predicate may also be the visit: retain_mut)
                         I.return_hooks[c_ret["id"]] = ret_hook
                         I.no_join_bodies.add(c_ret["id"])
                     I.unroll_max_blocks = 0
@@ -237,6 +245,10 @@ def check(env, rep, tier):
                         neg = False
                         while cond is not None and cond[0] == "not":
                             cond, neg = cond[1], not neg
+                        if cond is not None and cond[0] == "const":
+                            # decided on this path (e.g. a saturated count against an 8-bit limit): it must be the truth of count <= limit
+                            truth = bool(cond[1]) != neg
+                            good = s.entails(limit.aff - c.aff) if truth else s.entails(c.aff - limit.aff - 1)
                         if cond is not None and cond[0] == "cmp":
                             op, x, y = cond[1], cond[2], cond[3]
                             if neg:
@@ -246,6 +258,8 @@ def check(env, rep, tier):
                             if (op == "Le" and x == c.aff and y == limit.aff) or (op == "Ge" and x == limit.aff and y == c.aff) \
                                     or (op == "Lt" and x == c.aff and y == limit.aff + 1) or (op == "Gt" and x == limit.aff + 1 and y == c.aff):
                                 good = True
+                    if os.environ.get("VERIF_DEBUG_C15"):
+                        print("RET", rv, getattr(rv, "cond", None), "count", c, "limit", limit)
                     if not good:
                         ok = False
                 site = {"file": c_ret["span"]["f"], "line": c_ret["span"]["l"], "fn": c_ret["path"]}
